@@ -238,7 +238,7 @@ M("C16", "command-wrap-to-192", "driver/udp_socket.py", "                if self
 M("C16", "unlocked", "driver/udp_socket.py", "    def get_and_increment_sequence_counter(self, command: bool):\n        with self._lock:", "    def get_and_increment_sequence_counter(self, command: bool):\n        if True:", rule="R3")
 M("C16", "keypress-protocol-range", "async_spa.py",
   "            lambda: GeckoPackCommandProtocolHandler.keypress(\n                self._protocol.get_and_increment_sequence_counter(True),  # type: ignore", "            lambda: GeckoPackCommandProtocolHandler.keypress(\n                self._protocol.get_and_increment_sequence_counter(False),  # type: ignore", rule="R4")
-M("C16", "ge-twin", "driver/async_udp_protocol.py", "            if self._sequence_counter_protocol == 191:", "            if self._sequence_counter_protocol >= 191:", expect="fire", rule="R5")
+M("C16", "ge-twin", "driver/async_udp_protocol.py", "            if self._sequence_counter_protocol == 191:", "            if self._sequence_counter_protocol >= 191:", expect="silent")
 M("C16", "class-level-counter", "driver/async_udp_protocol.py", "class GeckoAsyncUdpProtocol(asyncio.DatagramProtocol):\n", "class GeckoAsyncUdpProtocol(asyncio.DatagramProtocol):\n    _sequence_counter_protocol = 0\n", rule="R3")
 
 # --------------------------------------------------------------------------- C17
